@@ -89,19 +89,23 @@ func contentType(t uint8) string {
 const maxRecordLength = 16384 + 256
 
 func readRecord(conn net.Conn) ([]byte, error) {
-	record := make([]byte, 5+maxRecordLength)
-	n, err := io.ReadFull(conn, record[:5])
+	header := make([]byte, 5)
+	n, err := io.ReadFull(conn, header)
 	if err == io.ErrUnexpectedEOF {
 		err = io.EOF
 	}
 	if err != nil {
-		return record[:n], err
+		return header[:n], err
 	}
-	length := uint32(record[3])<<8 | uint32(record[4])
+	length := uint32(header[3])<<8 | uint32(header[4])
 	if length > maxRecordLength {
-		return record[:n], fmt.Errorf("%w: record length %d > %d", ErrDecodeError, length, maxRecordLength)
+		return header[:n], fmt.Errorf("%w: record length %d > %d", ErrDecodeError, length, maxRecordLength)
 	}
-	nn, err := io.ReadFull(conn, record[n:n+int(length)])
+	// Size the buffer from the header, so that a flood of tiny records
+	// does not cost a maximum-size allocation each.
+	record := make([]byte, n+int(length))
+	copy(record, header)
+	nn, err := io.ReadFull(conn, record[n:])
 	if err == io.ErrUnexpectedEOF {
 		err = io.EOF
 	}
